@@ -196,6 +196,9 @@ class DictV(Val):
 class DictSlot(Val):
   """the set stored at d[k] of a set-valued dict; in-place set operators write back into the dict."""
   def __init__(s,d,k,elem): s.d=d; s.k=k; s.elem=elem
+class EnumV(Val):
+  """enumerate(<abstracted list>)"""
+  def __init__(s,inner): s.inner=inner
 class DictIter(Val):
   def __init__(s,d,mode): s.d=d; s.mode=mode
 
@@ -225,6 +228,8 @@ class SlotOps:
 def for_loop(ex,node,it,st):
   """`for x in <set | dict | dict.items()>` under a sidecar invariant (may mention the ghost set `seen`)."""
   spec=ex.loop_spec(node)
+  enum=isinstance(it,EnumV)
+  if enum: it=it.inner
   if isinstance(it,DictIter): d=it.d; mode=it.mode
   elif isinstance(it,Ref) and it.cls=='dict' and (it.id,'dom') in st.heap: d=it; mode='keys'
   elif isinstance(it,Ref) and it.cls=='set' and (it.id,'arr') in st.heap: d=it; mode='set'
@@ -234,9 +239,9 @@ def for_loop(ex,node,it,st):
     d=st.alloc('set',{'arr':it.arr,'elem':it.elem or ObjK()}); mode='set'
   else: return None
   if spec is None: raise Unsupported(f"loop at line {node.lineno} over a symbolic collection has no invariant in the sidecar")
-  return _for_loop(ex,node,d,mode,spec,st)
+  return _for_loop(ex,node,d,mode,spec,st,enum)
 
-def _for_loop(ex,node,d,mode,spec,st):
+def _for_loop(ex,node,d,mode,spec,st,enum=False):
   def domain(st):
     if mode=='set': return st.heap[(d.id,'arr')]
     if mode=='slot': return slot_arr(d,st)
@@ -259,7 +264,7 @@ def _for_loop(ex,node,d,mode,spec,st):
   # inv-init with seen = {}
   ex.inv_vc('inv-init',node,spec,with_seen(st,EMPTY),None)
   st1=st.fork()
-  ex.havoc_locals(st1,{n for n in ex.assigned_names(node.body) if n in st1.env and isinstance(st1.env[n],(I,B))})
+  ex.havoc_locals(st1,{n for n in ex.assigned_names(node.body) if n in st1.env and n not in ex.assigned_names([ast.Expr(node.target)])})
   for loc in spec.modifies: havoc_loc(ex,loc,st1)
   havoc_ghost(spec,st1)
   seen=z3.Const(f"seen!{st1.nextid[0]}",SetSort); st1.nextid[0]+=1
@@ -267,6 +272,8 @@ def _for_loop(ex,node,d,mode,spec,st):
   st1=with_seen(st1,seen)
   for cl in spec.invariant: st1.pc.append(ex.spec_bool(cl,st1.env,st1,st1.heap,st1.entry_heap,st1.entry_env))
   for cl in spec.lemmas: st1.pc.append(ex.spec_bool(cl,st1.env,st1,st1.heap,st1.entry_heap,st1.entry_env))
+  # the loop-head state after havoc: cells the body changes must have been havoced (= listed in `modifies`)
+  head_heap={k:v for k,v in st1.heap.items() if st.heap.get(k) is v or (isinstance(v,z3.ExprRef) and isinstance(st.heap.get(k),z3.ExprRef) and st.heap[k].eq(v))}
   # (a) one more iteration for an arbitrary unseen element
   e=z3.Const(f"elem!{st1.nextid[0]}",Obj); st1.nextid[0]+=1
   isbag=(mode=='set' and isinstance(d,Ref) and st1.heap.get((d.id,'bag')))
@@ -280,12 +287,14 @@ def _for_loop(ex,node,d,mode,spec,st):
     else:
       v=DictSlot(d,e,vt.elem) if isinstance(vt,SetOf) else from_obj(z3.Select(sa.heap[(d.id,'val')],e),vt,sa)
       item=v if mode=='values' else Tup([key,v])
+  if enum: item=Tup([I(sa.fresh_int('index')),item])
   from .symexec import feasible
   if feasible(sa):
     for sb,ctl in ex.assign(node.target,item,sa):
       if ctl is not None: yield sb,ctl; continue
       for sc,c in ex.block(node.body,sb):
         if c is None or c[0]=='continue':
+          ex.loop_frame_vc(node,head_heap,sc)
           ex.inv_vc('inv-step',node,spec,with_seen(sc,z3.Store(seen,e,True)),None)
         elif c[0]=='break': yield restore(sc),None
         else: yield sc,c
@@ -484,6 +493,10 @@ class SetList:
     if m=='empty': yield st,B(arr==EMPTY); return
     if m=='append':
       x=to_obj(args[0],st)
+      et0=st.heap.get((o.id,'elem'))
+      if (et0 is None or (isinstance(et0,ObjK) and et0.kind=='obj')) and isinstance(args[0],Tup) and len(args[0].items)==2:
+        # first tuple appended to a list of undeclared element type: remember the component types (ints stay ints when taken out again)
+        st=st.fork(); st.heap[(o.id,'elem')]=PairOf(*[IntT() if is_intlike(a) else ObjK() for a in args[0].items])
       if bag:           # duplicates allowed: the abstraction records which elements occur ('arr') and which may occur more than once ('multi')
         mu=st.heap.get((o.id,'multi'),EMPTY)
         st2=st.fork(); st2.heap[(o.id,'arr')]=z3.Store(arr,x,True); st2.heap[(o.id,'multi')]=z3.If(z3.Select(arr,x),z3.Store(mu,x,True),mu); yield st2,NONE; return
@@ -542,6 +555,11 @@ def declare_pure_method(name,arity,kind):
     return B(t) if kind=='bool' else Opq(t,'obj') if kind=='obj' else SetV(t,ObjK())
   SPEC_FUNS[name]=sf
   return uf
+def _sf_pfst(s,args,st): return I(Obj.ival(Obj.fst(to_obj(args[0],st))))
+def _sf_psnd(s,args,st): return Opq(Obj.snd(to_obj(args[0],st)),'obj')
+def _sf_isipair(s,args,st):
+  t=to_obj(args[0],st); return B(z3.And(Obj.is_pair(t),Obj.is_ibox(Obj.fst(t))))
+SPEC_FUNS.update({'pfst':_sf_pfst,'psnd':_sf_psnd,'is_keyed_pair':_sf_isipair})
 def _sf_dups(s,args,st):
   o=args[0]; return SetV(st.heap.get((o.id,'multi'),EMPTY),st.heap.get((o.id,'elem')))
 SPEC_FUNS.update({'card':_sf_card,'elems':_sf_elems,'dups':_sf_dups})
